@@ -3,6 +3,8 @@ package main
 import (
 	"context"
 	"fmt"
+	"math"
+	"sort"
 	"sync"
 
 	"github.com/bradenaw/juniper/chans"
@@ -11,22 +13,114 @@ import (
 	"verif/vkit"
 )
 
-// Interface element types (error, any) with nil values among the values sent: the number of nils,
-// the multiset and per-input order of the non-nil values must come out, and nothing may panic.
+// Element types whose zero-ness / equality is not bit identity: interface types (error, any) with
+// nil values, float64 with +0, -0 and NaN payloads, a struct, an array and a complex holding such
+// floats, and interface values holding them. Among the unique values every input also sends
+// "special" values (nil, the zeros, NaNs) that cannot be told apart by ==: the multiset of those is
+// compared BIT-WISE (math.Float64bits), the unique values as usual (multiset, per-input order), and
+// nothing may panic.
 
 type valErr uint64
 
 func (e valErr) Error() string { return fmt.Sprintf("value %#x", uint64(e)) }
 
 type elemOps[T any] struct {
-	name string
-	mk   func(v uint64) T
-	dec  func(T) (uint64, bool) // value, isNil
+	name     string
+	mk       func(v uint64) T
+	specials []T
+	dec      func(T) (uint64, bool) // unique value, or special
+	bits     func(T) string         // bit-exact rendering
+}
+
+var (
+	negZero = math.Copysign(0, -1)
+	nanA    = math.Float64frombits(0x7ff8000000000001)
+	nanB    = math.Float64frombits(0xfff8000000000abc)
+)
+
+func fbits(f float64) string {
+	switch b := math.Float64bits(f); {
+	case b == 0:
+		return "+0"
+	case b == 1<<63:
+		return "-0"
+	case f != f:
+		return fmt.Sprintf("NaN(%#x)", b)
+	default:
+		return fmt.Sprintf("%#x", b)
+	}
+}
+
+// plainFloat: f is one of the unique values (a positive integer), not a zero or a NaN.
+func plainFloat(f float64) (uint64, bool) {
+	if f != f || f == 0 || f < 1 || f > 1<<40 {
+		return 0, false
+	}
+	return uint64(f), true
+}
+
+type fstruct struct {
+	f float64
+	n int
+}
+
+var float64Ops = elemOps[float64]{
+	name:     "float64",
+	mk:       func(v uint64) float64 { return float64(v) },
+	specials: []float64{0, negZero, negZero, nanA, nanB},
+	dec: func(x float64) (uint64, bool) {
+		v, ok := plainFloat(x)
+		return v, !ok
+	},
+	bits: fbits,
+}
+
+var structOps = elemOps[fstruct]{
+	name:     "struct{f float64; n int}",
+	mk:       func(v uint64) fstruct { return fstruct{float64(v), 1} },
+	specials: []fstruct{{0, 0}, {negZero, 0}, {negZero, 0}, {nanA, 0}},
+	dec: func(x fstruct) (uint64, bool) {
+		if x.n != 1 {
+			return 0, true
+		}
+		v, ok := plainFloat(x.f)
+		return v, !ok
+	},
+	bits: func(x fstruct) string { return fmt.Sprintf("{%s %d}", fbits(x.f), x.n) },
+}
+
+var arrayOps = elemOps[[2]float64]{
+	name:     "[2]float64",
+	mk:       func(v uint64) [2]float64 { return [2]float64{float64(v), negZero} },
+	specials: [][2]float64{{0, 0}, {negZero, negZero}, {0, negZero}, {negZero, 0}, {nanB, negZero}},
+	dec: func(x [2]float64) (uint64, bool) {
+		v, ok := plainFloat(x[0])
+		return v, !ok
+	},
+	bits: func(x [2]float64) string { return "[" + fbits(x[0]) + " " + fbits(x[1]) + "]" },
+}
+
+var complexOps = elemOps[complex128]{
+	name:     "complex128",
+	mk:       func(v uint64) complex128 { return complex(float64(v), negZero) },
+	specials: []complex128{0, complex(negZero, negZero), complex(0, negZero), complex(negZero, 0), complex(nanA, negZero)},
+	dec: func(x complex128) (uint64, bool) {
+		v, ok := plainFloat(real(x))
+		return v, !ok
+	},
+	bits: func(x complex128) string { return "(" + fbits(real(x)) + " " + fbits(imag(x)) + "i)" },
 }
 
 var errorOps = elemOps[error]{
-	name: "error",
-	mk:   func(v uint64) error { return valErr(v) },
+	name:     "error",
+	mk:       func(v uint64) error { return valErr(v) },
+	specials: []error{nil},
+	bits: func(x error) string {
+		if x == nil {
+			return "nil"
+		}
+		return x.Error()
+	},
 	dec: func(x error) (uint64, bool) {
 		if x == nil {
 			return 0, true
@@ -39,28 +133,56 @@ var errorOps = elemOps[error]{
 }
 
 var anyOps = elemOps[any]{
-	name: "any",
-	mk:   func(v uint64) any { return v },
+	name:     "any",
+	mk:       func(v uint64) any { return v },
+	specials: []any{nil, nil, negZero, float64(0), [2]float64{negZero, 0}, fstruct{negZero, 0}, complex(negZero, negZero), nanA},
 	dec: func(x any) (uint64, bool) {
-		if x == nil {
-			return 0, true
-		}
 		if v, ok := x.(uint64); ok {
 			return v, false
 		}
-		return 0, false
+		return 0, true
+	},
+	bits: func(x any) string {
+		switch v := x.(type) {
+		case nil:
+			return "nil"
+		case uint64:
+			return fmt.Sprintf("uint64(%#x)", v)
+		case float64:
+			return "float64(" + fbits(v) + ")"
+		case [2]float64:
+			return "[2]float64" + arrayOps.bits(v)
+		case fstruct:
+			return "struct" + structOps.bits(v)
+		case complex128:
+			return "complex128" + complexOps.bits(v)
+		}
+		return fmt.Sprintf("%T(%v)", x, x)
 	},
 }
+
+const nElemTypes = 6
+
+var elemTypeNames = []string{errorOps.name, anyOps.name, float64Ops.name, structOps.name, arrayOps.name, complexOps.name}
 
 func ifaceCase(c *vkit.Case) {
 	if c.R.NViolations() >= maxViolations {
 		return
 	}
 	isolated(func() {
-		if c.Index%2 == 0 {
+		switch c.Index % nElemTypes {
+		case 0:
 			ifaceRun(c, errorOps)
-		} else {
+		case 1:
 			ifaceRun(c, anyOps)
+		case 2:
+			ifaceRun(c, float64Ops)
+		case 3:
+			ifaceRun(c, structOps)
+		case 4:
+			ifaceRun(c, arrayOps)
+		default:
+			ifaceRun(c, complexOps)
 		}
 	})
 }
@@ -89,11 +211,11 @@ func (s *sliceStream[T]) Close() {}
 func ifaceRun[T any](c *vkit.Case, ops elemOps[T]) {
 	r := c.R
 	rnd := c.Rand
-	fn := (c.Index / 2) % 3 // 0 chans.Merge, 1 chans.Replicate, 2 stream.Merge
+	fn := (c.Index / nElemTypes) % 3 // 0 chans.Merge, 1 chans.Replicate, 2 stream.Merge
 	fnName := []string{"chans.Merge", "chans.Replicate", "stream.Merge"}[fn]
-	n := (c.Index / 6) % 8 // inputs (Merge: 0..7) or destinations (Replicate)
+	n := (c.Index / (3 * nElemTypes)) % 8 // inputs (Merge: 0..7) or destinations (Replicate)
 	if fn == 1 {
-		n = (c.Index/6)%4 + 1
+		n = (c.Index/(3*nElemTypes))%4 + 1
 	}
 	nIn := n
 	if fn == 1 {
@@ -105,16 +227,18 @@ func ifaceRun[T any](c *vkit.Case, ops elemOps[T]) {
 	nils := make([]int, nIn)
 	var shown [][]string
 	totalNil := 0
+	sentSpecial := make(map[string]int)
 	for i := range seqs {
 		k := rnd.Intn(7)
 		var sh []string
 		for j := 0; j < k; j++ {
-			if rnd.Bool(0.4) {
-				var zero T
-				seqs[i] = append(seqs[i], zero)
+			if rnd.Bool(0.45) {
+				x := vkit.Pick(rnd, ops.specials)
+				seqs[i] = append(seqs[i], x)
 				nils[i]++
 				totalNil++
-				sh = append(sh, "nil")
+				sentSpecial[ops.bits(x)]++
+				sh = append(sh, ops.bits(x))
 			} else {
 				seqs[i] = append(seqs[i], ops.mk(mkval(i, lens[i])))
 				sh = append(sh, fmt.Sprintf("%d:%d", i, lens[i]))
@@ -123,7 +247,7 @@ func ifaceRun[T any](c *vkit.Case, ops elemOps[T]) {
 		}
 		shown = append(shown, sh)
 	}
-	witness := map[string]any{"function": fnName, "element_type": ops.name, "inputs": nIn, "sent": shown, "nils_per_input": nils}
+	witness := map[string]any{"function": fnName, "element_type": ops.name, "inputs": nIn, "sent": shown, "special_values_per_input": nils}
 	gs := newGset()
 	gs.add()
 	perts := func() *vkit.Perturber { return vkit.NewPerturber(rnd, 8, vkit.Pick(rnd, []float64{0, 0, 0.15, 0.4})) }
@@ -154,12 +278,14 @@ func ifaceRun[T any](c *vkit.Case, ops elemOps[T]) {
 	judge := func(who string, got []T, lens []int, wantNil int, wantSeq []T) bool {
 		var gv []uint64
 		gotNil := 0
+		gotSpecial := make(map[string]int)
 		var sh []string
 		for _, x := range got {
 			v, isNil := ops.dec(x)
 			if isNil {
 				gotNil++
-				sh = append(sh, "nil")
+				gotSpecial[ops.bits(x)]++
+				sh = append(sh, ops.bits(x))
 				continue
 			}
 			gv = append(gv, v)
@@ -171,16 +297,14 @@ func ifaceRun[T any](c *vkit.Case, ops elemOps[T]) {
 			c.Violation(sig, fmt.Sprintf("%s of element type %s with nil values, %s: %s", fnName, ops.name, who, what), witness)
 			return false
 		}
-		if gotNil != wantNil {
-			c.Violation("nil-count", fmt.Sprintf("%s of element type %s: %d nil values were sent, %s received %d", fnName, ops.name, wantNil, who, gotNil), witness)
+		if gotNil != wantNil || fmt.Sprint(sortedCounts(gotSpecial)) != fmt.Sprint(sortedCounts(sentSpecial)) {
+			c.Violation("value-bits", fmt.Sprintf("%s of element type %s: the values that == cannot tell apart were sent as %v, but %s received %v (compared bit-wise)", fnName, ops.name, sortedCounts(sentSpecial), who, sortedCounts(gotSpecial)), witness)
 			return false
 		}
-		if wantSeq != nil { // a single source: the exact sequence, nils in place
+		if wantSeq != nil { // a single source: the exact sequence, bit-wise
 			for k := range wantSeq {
-				_, a := ops.dec(wantSeq[k])
-				_, b := ops.dec(got[k])
-				if a != b {
-					c.Violation("input-order", fmt.Sprintf("%s of element type %s: %s got the nil values at other positions than sent (first difference at %d)", fnName, ops.name, who, k), witness)
+				if a, b := ops.bits(wantSeq[k]), ops.bits(got[k]); a != b {
+					c.Violation("input-order", fmt.Sprintf("%s of element type %s: %s got %s at position %d where %s was sent", fnName, ops.name, who, b, k, a), witness)
 					return false
 				}
 			}
@@ -340,6 +464,17 @@ func ifaceRun[T any](c *vkit.Case, ops elemOps[T]) {
 		}
 	}
 	r.Count("interface element type with nil values: "+fnName, ops.name, 1)
-	r.Count("interface element type with nil values", fmt.Sprintf("%d nil values in the run", min(totalNil, 9)), 1)
+	for k, v := range sentSpecial {
+		r.Count("element types: special values moved", ops.name+" "+k, v)
+	}
 	r.Distinct(fmt.Sprintf("iface|%s|%s|%v", fnName, ops.name, shown))
+}
+
+func sortedCounts(m map[string]int) []string {
+	var out []string
+	for k, v := range m {
+		out = append(out, fmt.Sprintf("%s x%d", k, v))
+	}
+	sort.Strings(out)
+	return out
 }
